@@ -8,7 +8,11 @@ generators (libdrive `generate`; a sample through the real binary) and through t
 six languages.  Observation = the EXTRACTED reference lexer (Spec/Lexers.v) run on the bytes: for every
 sentinel, the lexer modes in which its characters are read; the verdict on the real bytes is the extracted
 good_C15 (every doc string reproduced, every character of it read inside a comment / docstring, lexer back
-in code at the end); the finding class is the extracted known_C15 on the doc strings of the input.
+in code at the end); the finding class is the extracted known_C15 on the doc strings AS CARRIED on the unchanged tree: the
+extracted c15_carried (= str::trim) of every attribute value the generator wrote (Spec/C15Spec.v: the expectation for a doc
+attribute with value v is the text trim v; what the trim removes is not carried).  A share of the docs is one line of text
+surrounded by blanks and line breaks in the attribute value only (`///   text  `, `/**   text   */`, the conventional
+`/**<LF> * text<LF> */`, #[doc = "<LF>text<LF>"]) at every documentable position: they are safe in every language.
 For Python the Gallina lexer is cross-checked against CPython's tokenize on the same bytes."""
 import concurrent.futures, io, json, subprocess, tokenize
 import vf, progs, back, irgen
@@ -69,9 +73,35 @@ class DocGen:
             parts.append(r.choice(RISKY_TOKENS) if risky and r.random() < 0.3 else r.choice(SAFE_TOKENS))
         return ''.join(parts)
 
-    def doc(self, risky):
-        """-> (source form for progs.doc_src, the doc string that must arrive)"""
+    def edge_doc(self):
+        """ONE line of harmless text; blanks and line breaks only AROUND it, in the attribute value: leading / trailing blanks in
+        `///`, a one-line `/**  text  */`, the conventional block with one text line, #[doc = ".."] whose string starts / ends with
+        line breaks.  What is carried is the trimmed value (no line break left), safe in all six languages."""
         r = self.rng
+        t = ''
+        while not rust_trim(t):
+            t = self.text(False)
+        forms = ['attr', 'attr', 'line']
+        if '*/' not in t and '/*' not in t:
+            forms += ['block1', 'blockN', 'blockN']
+        f = r.choice(forms)
+        if f == 'line':
+            lead = r.choice([' ', '  ', '\t', '      ', ' \t '])
+            return ('line', lead + t + r.choice(['', ' ', '   ', ' \t']))
+        if f == 'block1':
+            return ('block', r.choice([' ', '   ', ' \t ']) + t + r.choice([' ', '   ', ' \t ']))
+        if f == 'blockN':
+            ind = r.choice(['', '    ', '\t', '        '])
+            return ('block', '\n' + ind + ' * ' + t + '\n' + ind + ' ')
+        lead = r.choice(['\n', '\n', '\n\n', ' \n', '\n\t', '\r\n', '\n ', '\n    ', ' \n \n  ', ''])
+        trail = r.choice(['\n', '\n\n', ' \n ', '', '\t\n', '\r\n', '  ']) if lead else r.choice(['\n', '\n\n', ' \n ', '\r\n'])
+        return ('attr', lead + t + trail)
+
+    def doc(self, risky):
+        """-> the source form for progs.doc_src: (spelling, attribute value as written)"""
+        r = self.rng
+        if r.random() < (0.1 if risky else 0.3):
+            return self.edge_doc()
         t = self.text(risky)
         forms = ['attr']
         if '\n' not in t and '\r' not in t:
@@ -80,12 +110,10 @@ class DocGen:
             forms += ['block', 'block'] if '\n' in t else ['block']
         f = r.choice(forms)
         if f == 'line':
-            src = ('line', (' ' if r.random() < 0.8 or not t or t[0] in '/!' else '') + t)
-        elif f == 'block':
-            src = ('block', ' ' + t + ' ')
-        else:
-            src = ('attr', r.choice(['', ' ']) + t + r.choice(['', ' ']))
-        return src, rust_trim(t)
+            return ('line', (' ' if r.random() < 0.8 or not t or t[0] in '/!' else '') + t)
+        if f == 'block':
+            return ('block', ' ' + t + ' ')
+        return ('attr', r.choice(['', ' ']) + t + r.choice(['', ' ']))
 
     def raw_docs(self, risky, p):
         """doc strings as no parser would deliver them (untrimmed): for the IR-level stream"""
@@ -101,15 +129,23 @@ class DocGen:
         return out
 
     def docs(self, risky, p):
+        """-> (source forms, attribute values as written)"""
         r = self.rng
         if r.random() > p:
             return [], []
         ds = [self.doc(risky) for _ in range(r.choice([1, 1, 1, 2, 3]))]
-        return [d[0] for d in ds], [d[1] for d in ds]
+        return ds, [d[1] for d in ds]
+
+
+def carried_sites(raw_sites_list):
+    """[(position, [attribute values])] per case -> [(position, [doc strings as carried on the unchanged tree])] per case:
+    the EXTRACTED c15_carried_sites (Spec/C15Spec.v: str::trim of every value)"""
+    outs = vf.model([f'(c15carried {Lst(sites, lambda s: f"({s[0]} {Lst(s[1], S)})")})' for sites in raw_sites_list])
+    return [[(x[0], [vf.unS(d) for d in x[1]]) for x in a] for a in outs]
 
 
 def plant(dg, prog, risky, p):
-    """replace every doc list of the program; returns the sites [(position, [doc strings])] of the generated part"""
+    """replace every doc list of the program; returns the RAW sites [(position, [attribute values as written])] of the generated part"""
     sites = []
 
     def put(obj, pos, live):
@@ -278,8 +314,8 @@ def gen_cases(chk, n):
         prog = gen.program()
         risky = k % 2 == 1
         dg = DocGen(rng)
-        sites = plant(dg, prog, risky, rng.choice([0.5, 0.8, 1.0]))
-        cases.append({'source': progs.source(prog), 'sites': sites, 'risky': risky})
+        raw = plant(dg, prog, risky, rng.choice([0.5, 0.8, 1.0]))
+        cases.append({'source': progs.source(prog), 'raw_sites': raw, 'risky': risky})
     ig = irgen.Gen(rng, edge=0.05)
     for k in range(n // 3):
         items = ig.items(1, 4)
@@ -288,10 +324,35 @@ def gen_cases(chk, n):
         sites = plant_ir(DocGen(rng), items, risky, rng.choice([0.5, 0.8, 1.0]))
         cases.append({'items': items, 'sites': sites, 'risky': risky})
     # fixed corpus: the six witnesses of Props/C15.v as source programs, and a well-behaved program
-    for name, doc in (('two-lines', '/** alpha\nbeta */'), ('star-slash', '#[doc = "alpha */ beta"]'), ('quotes', '/// alpha """ beta'),
-                      ('plain', '/// alpha beta')):
-        want = rust_trim(doc[3:-2]) if doc.startswith('/**') else (doc[4:] if doc.startswith('///') else 'alpha */ beta')
-        cases.insert(0, {'source': f'{doc}\n#[typeshare]\npub struct Foo {{\n    pub x: u8,\n}}\n', 'sites': [('struct', [want])], 'risky': True, 'corpus': name})
+    for name, doc in (('two-lines', ('block', ' alpha\nbeta ')), ('star-slash', ('attr', 'alpha */ beta')), ('quotes', ('line', ' alpha """ beta')),
+                      ('plain', ('line', ' alpha beta')),
+                      # one line of text, line breaks only around it in the attribute value: carried trimmed, safe everywhere
+                      ('block-conventional', ('block', '\n * Zq900001x alpha\n ')), ('attr-leading-lf', ('attr', '\nZq900002x alpha')),
+                      ('attr-lf-both-ends', ('attr', '\n\n\tZq900003x alpha \n')), ('line-indented', ('line', '     Zq900004x alpha  '))):
+        cases.insert(0, {'source': f'{progs.doc_src(doc)}\n#[typeshare]\npub struct Foo {{\n    pub x: u8,\n}}\n', 'raw_sites': [('struct', [doc[1]])],
+                         'risky': name in ('two-lines', 'star-slash', 'quotes'), 'corpus': name})
+    # every documentable position at once, each doc spelled with surrounding line breaks (the layout of seeded/C15_b)
+    k = [900100]
+
+    def edge(text):
+        k[0] += 1
+        t = f'Zq{k[0]}x {text}'
+        return [('block', f'\n * {t}\n '), ('attr', f'\n{t}'), ('attr', f'\n\n{t}\n'), ('attr', f'\n\t{t}')][k[0] % 4]
+    d = [edge(t) for t in ('struct', 'field', 'alias', 'unit enum', 'unit variant', 'tagged enum', 'tuple variant', 'struct variant', 'variant field', 'newtype')]
+    src = (f'{progs.doc_src(d[0])}\n#[typeshare]\npub struct Account {{\n    {progs.doc_src(d[1])}\n    pub name: String,\n}}\n'
+           f'{progs.doc_src(d[2])}\n#[typeshare]\npub type AccountId = String;\n'
+           f'{progs.doc_src(d[3])}\n#[typeshare]\npub enum Colour {{\n    {progs.doc_src(d[4])}\n    Red,\n    Green,\n}}\n'
+           f'{progs.doc_src(d[5])}\n#[typeshare]\n#[serde(tag = "type", content = "content")]\npub enum Event {{\n    {progs.doc_src(d[6])}\n    Renamed(String),\n'
+           f'    {progs.doc_src(d[7])}\n    Moved {{\n        {progs.doc_src(d[8])}\n        to: String,\n    }},\n}}\n'
+           f'{progs.doc_src(d[9])}\n#[typeshare]\npub struct Wrapper(pub u32);\n')
+    cases.insert(0, {'source': src, 'corpus': 'all-positions-surrounded-by-line-breaks', 'risky': False,
+                     'raw_sites': [('struct', [d[0][1]]), ('field', [d[1][1]]), ('alias', [d[2][1]]), ('unit_enum', [d[3][1]]), ('variant', [d[4][1]]),
+                                   ('alg_enum', [d[5][1]]), ('variant', [d[6][1]]), ('variant', [d[7][1]]), ('variant_field', [d[8][1]]), ('alias', [d[9][1]])]})
+    # what the unchanged tree carries for these attribute values: the extracted trim, cross-checked with the local str::trim
+    src_cases = [c for c in cases if 'raw_sites' in c]
+    for c, sites in zip(src_cases, carried_sites([c['raw_sites'] for c in src_cases])):
+        c['sites'] = [(p, ds) for p, ds in sites if ds]
+        c['trim_agrees'] = all(rust_trim(v) == d for (_, vs), (_, ds) in zip(c['raw_sites'], sites) for v, d in zip(vs, ds))
     return cases
 
 
@@ -362,9 +423,11 @@ def run(chk):
                 continue
             # the front end delivered the doc strings the generator planted (one raw string per attribute)
             got = [(p, ds) for p, _, ds in ir_sites(r['ir']) if ds]
+            # (a mismatch is recorded, and the real bytes are STILL judged against the strings the unchanged tree carries)
             if 'source' in c and sorted(got) != sorted((p, list(ds)) for p, ds in c['sites']):
                 front_bad.append(payload_of(c, l, {'ir_sites': got}))
-                continue
+            if 'source' in c and not c.get('trim_agrees', True):
+                corr.append(payload_of(c, l, {'note': "extracted c15_carried (trim) and the check's own str::trim disagree on an attribute value", 'raw_sites': c['raw_sites']}))
             ji, jm = r['impl_judged'], r['model_judged']
             oi, om = observe(impl[1], ji['obs'], sents), observe(model[1], jm['obs'], sents)
             equal = oi == om and ji['good'] == jm['good']
